@@ -19,7 +19,7 @@ func init() {
 	Register(&Spec{
 		ID:        "C04",
 		Technique: "runtime monitoring: accounting-model monitor over schema application (Content, PartialContent chains, JustAttributes) on four hcl.Body implementations of one logical content, plus cross-implementation agreement",
-		Rule: "each case is one logical body (attributes and blocks with 0-2 labels, a name may be used by both an attribute and a block type) realised as a native body, a JSON body, a merged body (hcl.MergeBodies over 2-4 files of mixed syntax, incl. empty files and merges of merges) and a dynamic-block-expanded body; a generated schema (subset of the names in use plus unused names, required flags, label-count perturbations) is applied in one step and as a chain of k=2..4 partial steps over a random disjoint split; every matching item must be returned exactly once in per-type order, non-matching items must be errors (Content) or survive unmodified in the remainder (PartialContent), k steps must equal one step with the union schema, JustAttributes of remainders must see only what remains, and the implementations must agree; " +
+		Rule: "each case is one logical body (attributes and blocks with 0-2 labels, a name may be used by both an attribute and a block type) realised as a native body, a JSON body, a merged body (hcl.MergeBodies over 2-4 files of mixed syntax, incl. empty files and merges of merges) , a dynamic-block-expanded body and the placeholder body of a dynamic block whose for_each is unknown; the caller's schema slices (sub-slices with spare capacity) are compared before and after, and a remainder is extracted from twice; a generated schema (subset of the names in use plus unused names, required flags, label-count perturbations) is applied in one step and as a chain of k=2..4 partial steps over a random disjoint split; every matching item must be returned exactly once in per-type order, non-matching items must be errors (Content) or survive unmodified in the remainder (PartialContent), k steps must equal one step with the union schema, JustAttributes of remainders must see only what remains, and the implementations must agree; " +
 			"non-trivial = the body has >= 1 block and >= 3 items and the schema matches some but not all items; distinct by logical content + schema",
 		Assumptions: []string{"the number of 'unsupported' diagnostics is not compared across syntaxes (JSON reports per property, native per item); error-ness and the diagnostic multiset within one implementation are"},
 		Quick:       Plan{Batches: 16, PerBatch: 4000, MinNonTrivial: 20000},
